@@ -22,7 +22,8 @@ import (
 )
 
 // two slice inputs: different argument shapes can have the same number of parameters
-const l5SQL = "SELECT &Row.* FROM t WHERE a IN ($Ints[:]) OR b IN ($Strs[:])"
+// (ends in a statement terminator: the text is the cache key as it stands)
+const l5SQL = "SELECT &Row.* FROM t WHERE a IN ($Ints[:]) OR b IN ($Strs[:]);"
 
 // the same shapes on a statement without outputs (concurrent runs: every other Statement)
 const l5ExecSQL = "UPDATE t SET c = 0 WHERE a IN ($Ints[:]) OR b IN ($Strs[:])"
@@ -706,7 +707,7 @@ func runL5Conc(r *rng.R, threads, perThread int) (obs *l5ConcObs) {
 		l5All(b.Query(context.Background(), stmts[0], ints, strs), noOut[stmts[0]])
 		a = nil
 		collect(func() string { return fmt.Sprint(len(st.Events())) })
-		if err := l5All(b.Query(context.Background(), stmts[0], ints, strs), noOut[stmts[0]]); err != nil && strings.Contains(err.Error(), "statement is closed") {
+		if err := l5All(b.Query(context.Background(), stmts[0], ints, strs), noOut[stmts[0]]); err != nil && (strings.Contains(err.Error(), "statement is closed") || strings.Contains(err.Error(), "database is closed")) {
 			obs.ClosedErrs++
 			obs.Errors = append(obs.Errors, "second DB value over the same sql.DB, after the first was collected: "+err.Error())
 		}
@@ -807,6 +808,26 @@ func runL5Conc(r *rng.R, threads, perThread int) (obs *l5ConcObs) {
 					} else {
 						tx.Rollback()
 					}
+					if tr.Chance(1, 3) {
+						// another transaction is begun on this goroutine; the finished one stays
+						// finished: its handle ends nothing and runs nothing
+						// (no deadline on this context: database/sql would end the transaction with it;
+						// this goroutine holds no other connection while it waits for one)
+						bctx2, bcancel2 := context.WithCancel(context.WithValue(context.Background(), fakedrv.CtxKey{}, fmt.Sprintf("txB-%d", txid+5000)))
+						if tx2, e2 := dbs[di].db.Begin(bctx2, nil); e2 == nil {
+							ints, strs := l5Args(1)
+							eq := l5All(tx.Query(context.Background(), stmts[0], ints, strs), noOut[stmts[0]])
+							er := tx.Rollback()
+							ec := tx2.Commit()
+							if eq == nil || er == nil || ec != nil {
+								mu.Lock()
+								obs.TxAfterEnd++
+								obs.Errors = append(obs.Errors, fmt.Sprintf("after a finished transaction and a new Begin: query on the old handle %v, its Rollback %v, Commit of the new one %v", eq, er, ec))
+								mu.Unlock()
+							}
+						}
+						bcancel2()
+					}
 					if lastTQ != nil && tr.Chance(1, 2) {
 						// a Query object of the finished transaction: it fails, nothing runs
 						if e := l5All(lastTQ, lastNoOut); e == nil {
@@ -846,6 +867,12 @@ func runL5Conc(r *rng.R, threads, perThread int) (obs *l5ConcObs) {
 					open = nil
 				}
 				if i == dropAt && t == 0 {
+					// the Statements that were only held are dropped while the other goroutines
+					// are in the middle of their queries: they are released all the same
+					for k := nS; k < len(extra); k++ {
+						extra[k] = nil
+					}
+					runtime.GC()
 					runtime.GC()
 				}
 				mu.Lock()
